@@ -233,11 +233,10 @@ func vpInv(e *vEnv, assert bool) bool {
 		}
 	}
 	// 11 own slots
-	if d.MyIndex >= 0 {
+	// A node running watch-only under a validator key treats its own index like any other
+	// validator's (payloads it sent in an earlier life may be stored there): no own-slot facts.
+	if d.MyIndex >= 0 && !d.Context.Config.WatchOnly() {
 		my := d.MyIndex
-		if d.Context.Config.WatchOnly() {
-			m.req("C01,C03,C04,C07,C13", "INV.11.watchonly", d.PreparationPayloads[my] == nil && d.CommitPayloads[my] == nil && d.PreCommitPayloads[my] == nil && d.ChangeViewPayloads[my] == nil)
-		}
 		if uint(my) != d.PrimaryIndex && d.PreparationPayloads[my] != nil {
 			m.req("C01,C03,C04,C07,C13", "INV.11.ownresponse", req != nil && vpHasAllTx(d))
 		}
